@@ -1,8 +1,10 @@
 (* C16 — At most one publisher per path; replaced publishers are cut off.
    Model: Model/PathSM.v (the path event loop as a step function), alwaysAvailable paths included.
+   Manager level (the life of a path NAME across the instances that reloads create for it): Model/C16_Names.v.
    Only statements here. *)
 From Coq Require Import List ZArith.
 Require Import MTX.Lib.Trace MTX.Model.PathSM MTX.Proofs.PathSM MTX.Proofs.PathSM_Thms MTX.Proofs.PathSM_Teardown.
+Require Import MTX.Model.C16_Names MTX.Proofs.C16_Names.
 Import ListNotations.
 Local Open Scope Z_scope.
 
@@ -90,3 +92,50 @@ Example C16_example_always_available :
   s_source (fst r) = None /\ s_sub (fst r) = SOffline /\ s_readers (fst r) = [1] /\
   s_source (fst r') = Some 3 /\ s_sub (fst r') = SPub 3.
 Proof. vm_compute. repeat split; reflexivity. Qed.
+
+(* ---- the path NAME: instances created by reloads (Model/C16_Names.v) -------------------------------------
+   schedules = every interleaving of: messages handled by the manager goroutine (client requests for the name,
+   reloads that keep / hot-reload / recreate / remove / re-add the configuration), clients talking directly to an
+   instance they were handed earlier, and single tear-down actions of a closed instance (each Close() of a
+   publisher or reader may take arbitrarily long: any number of other choices may come between two STick).
+   doClosePath waits (for every configuration): after EVERY schedule, hence at every instant,
+   while an instance is tearing down the name has no other instance (the replacement is created only after the
+   old instance finished its tear-down); so at most one instance exists, at most one is occupied (publisher,
+   stream or readers), at most one publisher is attached to the name and at most one stream exists. *)
+Theorem C16_name_one_instance : forall cf scs,
+  let ns := nfinal wait_always (ninit cf) scs in
+  (n_dying ns <> [] -> n_live ns = None) /\
+  (length (n_dying ns) <= 1)%nat /\
+  (length (instances ns) <= 1)%nat /\
+  (length (filter occupied (instances ns)) <= 1)%nat /\
+  (length (attached_pubs ns) <= 1)%nat /\
+  (length (streams ns) <= 1)%nat.
+Proof. exact (c16_name_one_instance wait_always (fun _ => eq_refl)). Qed.
+Print Assumptions C16_name_one_instance.
+
+(* every instance of the name, live or closing, is in a state the path loop reaches from its creation: the
+   per-instance theorems above (C16_one_source, C16_current_substream, ...) hold for it *)
+Theorem C16_name_instances_reachable : forall wp cf scs x,
+  In x (instances (nfinal wp (ninit cf) scs)) ->
+  exists cf' ops, i_st x = final step (init_state cf') ops.
+Proof. exact c16_name_instances_reachable. Qed.
+Print Assumptions C16_name_instances_reachable.
+
+(* refuted: waiting only for paths that have a static source ("avoid conflicts between sources" read literally).
+   Publisher 1 and a reader are attached; a reload changes maxReaders; publisher 2 arrives before the old
+   instance has done anything of its tear-down: both publishers are attached to the name (overridePublisher
+   is off), two streams exist, publisher 2 has been accepted and publisher 1 has not been closed. *)
+Theorem C16_name_wait_static_only_refuted :
+  let cf := pub_conf false 0 in
+  let ns := nfinal wait_static_only (ninit cf) race_sched in
+  attached_pubs ns = [(1, 2); (0, 1)] /\ streams ns = [(1, 0); (0, 0)] /\
+  In (NEv 1 (EAnswer 3 (AStream 0))) (ntrace wait_static_only (ninit cf) race_sched) /\
+  ~ In (NEv 0 (EPubClosed 1)) (ntrace wait_static_only (ninit cf) race_sched).
+Proof. exact race_static_only. Qed.
+Print Assumptions C16_name_wait_static_only_refuted.
+
+(* non-vacuity: the same schedule with the wait: publisher 2's request is not handled while instance 0 tears down *)
+Example C16_name_example :
+  let ns := nfinal wait_always (ninit (pub_conf false 0)) race_sched in
+  attached_pubs ns = [(0, 1)] /\ n_live ns = None.
+Proof. vm_compute. split; reflexivity. Qed.
